@@ -504,6 +504,7 @@ bool qvector_setat(qvector_t *vector, int index, const void *data) {
     vector->lock(vector);
     void *old_data = get_at(vector, index, false);
     if (old_data == NULL) {
+        vector->unlock(vector);
         return false;
     }
     memcpy(old_data, data, vector->objsize);
@@ -568,6 +569,7 @@ void *qvector_popat(qvector_t *vector, int index) {
     vector->lock(vector);
     void *data = get_at(vector, index, true);
     if (data == NULL) {
+        vector->unlock(vector);
         return NULL;
     }
 
@@ -831,6 +833,7 @@ void qvector_reverse(qvector_t *vector) {
     int j;
     void *tmp = malloc(vector->objsize);
     if (tmp == NULL) {
+        vector->unlock(vector);
         errno = ENOMEM;
         return;
     }
